@@ -49,6 +49,26 @@ Proof.
   subst x. exfalso. apply Hx. reflexivity.
 Qed.
 
+Lemma do_create2_mono : forall lim rs1 rs2 e s x,
+  rs_le rs1 rs2 -> do_create2 lim rs1 e s = x -> x <> Done RFuel -> do_create2 lim rs2 e s = x.
+Proof.
+  intros lim rs1 rs2 e s x Hle H Hx. unfold do_create2 in *.
+  repeat match type of H with
+         | (match ?a with _ => _ end) = _ =>
+             match a with
+             | rs1 _ _ _ => fail 1
+             | _ => destruct a eqn:?; try exact H
+             end
+         | (if ?a then _ else _) = _ => destruct a eqn:?; try exact H
+         end.
+  match type of H with
+  | (match rs1 ?a ?b ?c with _ => _ end) = _ =>
+      destruct (rs1 a b c) eqn:E1;
+        try (rewrite (Hle a b c) by (rewrite E1; discriminate); rewrite E1; exact H)
+  end.
+  subst x. exfalso. apply Hx. reflexivity.
+Qed.
+
 Lemma step_mono : forall lim rs1 rs2 e s x,
   rs_le rs1 rs2 -> step lim rs1 e s = x -> x <> Done RFuel -> step lim rs2 e s = x.
 Proof.
@@ -56,6 +76,7 @@ Proof.
   destruct (nth_error (e_code e) (s_pc s)) as [op|]; [|exact H].
   destruct (decode_op op); cbn [step_i] in *; try exact H.
   - eapply do_create_mono; eassumption.
+  - eapply do_create2_mono; eassumption.
   - eapply do_call_mono; eassumption.
 Qed.
 
